@@ -69,6 +69,12 @@ class Ctx:
         if self._solver is not None:
             self._solver.add(cond)
 
+    def assume_pc(self, cond):
+        """assumption that belongs to the current path only (e.g. a loop invariant after havoc)"""
+        if cond is True:
+            return
+        self.add_pc(to_z3(cond))
+
     def add_pc(self, cond):
         self.pc.append(cond)
         if self._solver is not None:
@@ -184,4 +190,9 @@ class Explorer:
                 continue
             except PyRaise as e:
                 results.append(PathResult(ctx, "raise", exc=e))
+            except Exception as e:
+                if type(e).__name__ == "PathCut":
+                    results.append(PathResult(ctx, "cut"))
+                else:
+                    raise
         return results
